@@ -13,6 +13,29 @@ import (
 //   - pkg/storage/storagewrappers/request.go: the wrapper stack (the CombinedTupleReader is applied last,
 //     above the iterator caches)
 //   - internal/check/request.go: the per-request contextual tuple indexes of the weighted-graph engine
+// wildcardCtxLookup renders the control skeleton of the statement of specificTypeWildcard (internal/check/check.go)
+// that looks the typed wildcard up among the contextual tuples of the (object, relation, user type) bucket:
+// the whole `if ctxTuples, ok := req.GetContextualTuplesByObjectID(…); ok { … }` statement (loop header, test,
+// what is taken, where the loop stops).  Shared by the fact groups CombinedReader (C04) and CheckV2 (C03).
+func wildcardCtxLookup(repo string) ([]string, error) {
+	fset, f, err := parseFile(repo, "internal/check/check.go")
+	if err != nil {
+		return nil, err
+	}
+	fd := findFunc(f, "Resolver", "specificTypeWildcard")
+	if fd == nil {
+		return nil, fmt.Errorf("Resolver.specificTypeWildcard not found")
+	}
+	for _, st := range fd.Body.List {
+		is, ok := st.(*ast.IfStmt)
+		if !ok || is.Init == nil || !strings.Contains(src(fset, is.Init), "GetContextualTuplesByObjectID") {
+			continue
+		}
+		return azSkeleton(fset, &ast.BlockStmt{List: []ast.Stmt{is}}), nil
+	}
+	return nil, fmt.Errorf("specificTypeWildcard: `if ctxTuples, ok := req.GetContextualTuplesByObjectID(…); ok` not found at top level")
+}
+
 func init() {
 	register("CombinedReader", func(repo string) (Result, error) {
 		fset, f, err := parseFile(repo, "pkg/storage/storagewrappers/combinedtuplereader.go")
@@ -186,6 +209,11 @@ func init() {
 			return true
 		})
 
+		wcLookup, err := wildcardCtxLookup(repo)
+		if err != nil {
+			return Result{}, err
+		}
+
 		var sb strings.Builder
 		sb.WriteString(genHeader)
 		sb.WriteString("namespace OpenFGAVerif.Gen.CombinedReader\n\n")
@@ -200,11 +228,13 @@ func init() {
 		sb.WriteString("def wrapperStackPlain : List String := " + leanStrList(plain) + "\n")
 		sb.WriteString("def insertSortedTupleFacts : List String := " + leanStrList(insFacts) + "\n")
 		sb.WriteString("def buildCtxMapsFacts : List String := " + leanStrList(bldFacts) + "\n")
+		sb.WriteString("/-- specificTypeWildcard: control skeleton of the lookup of the typed wildcard among the contextual tuples -/\n")
+		sb.WriteString("def wildcardCtxLookup : List String := " + leanStrList(wcLookup) + "\n")
 		sb.WriteString("\nend OpenFGAVerif.Gen.CombinedReader\n")
 		return Result{Lean: sb.String(), Summary: map[string]interface{}{
 			"sortCmp": sortCmp, "filterTuplesCond": filterCond, "reads": reads,
 			"wrapperStackWithCache": withCache, "wrapperStackPlain": plain,
-			"insertSortedTuple": insFacts, "buildContextualTupleMaps": bldFacts,
+			"insertSortedTuple": insFacts, "buildContextualTupleMaps": bldFacts, "wildcardCtxLookup": wcLookup,
 		}}, nil
 	})
 }
